@@ -32,6 +32,12 @@ from engine.model import AnalysisError, Program, base_names, dotted, walk_no_nes
 from engine.tokwire import Tok, TokWire, flat, merge_slots, toks
 from engine.wire import UNKNOWN, Config, Extractor
 
+def _at(src: str, frag: str) -> float:
+    """position of a fragment in unparsed source; NaN (every comparison false, i.e. 'idiom not recognised') when it does not occur"""
+    i = src.find(frag)
+    return float(i) if i >= 0 else float('nan')
+
+
 LEVEL = 'other'
 
 
@@ -480,7 +486,7 @@ def run(ctx: Any, prog: Program) -> None:
                       func='serialise', text='block position linkage')
     ok = 'STRING_SEP.join((ent.classname for ent in block_ents))' in wsrc and '.split(STRING_SEP)' in usrc
     ctx.shape('C16.Q1', ok, db, sfn, 'class names joined / split with STRING_SEP', func='serialise', text='class name list coding')
-    ok = wsrc.index('base_dict.serialise(file)') < wsrc.index('ent_serialise(CBaseEntity, file, base_dict)') and usrc.index('BinStrDict.unserialise(file, [])') < usrc.index("ent_unserialise(file, '_CBaseEntity_', from_dict)")
+    ok = _at(wsrc, 'base_dict.serialise(file)') < _at(wsrc, 'ent_serialise(CBaseEntity, file, base_dict)') and _at(usrc, 'BinStrDict.unserialise(file, [])') < _at(usrc, "ent_unserialise(file, '_CBaseEntity_', from_dict)")
     ctx.shape('C16.Q1', ok, db, sfn, 'shared dictionary then CBaseEntity', func='serialise', text='base block order')
     # ---- Q2 --------------------------------------------------------------------------------------------------
     for tbl, enum_name, enum_mod in (('VALUE_TYPE_ORDER', 'ValueTypes', fgd), ('FILE_TYPE_ORDER', 'FileType', prog.module('const'))):
